@@ -140,7 +140,8 @@ def run(code, mode, env=None, limit=5.0, name="__main__"):
             continue
         if k in injected and k in ("__name__", "__builtins__"):
             continue
-        if k.startswith("__ol_"):
+        if k.startswith("__ol_") or k == "__annotations__":
+            # helper temporaries; annotations are metadata the lowering drops by design (C01 excludes metadata)
             continue
         try:
             globs[k] = canon(v)
